@@ -134,6 +134,9 @@ def gen_gap(r, big):
     x = r.random()
     if x < 0.5:
         return ''
+    if x < 0.56:
+        # one very long physical line between two documents (a line-oriented reader must not swallow it whole)
+        return '# ' + 'c' * r.choice([5000, 9000, 13000, 20000]) + '\n'
     n = r.randint(1, 4) if not big else r.randint(50, 400)
     return ''.join(r.choice(['\n', '# comment %s\n' % ('c' * r.randint(0, 60)), '   \n']) for _ in range(n))
 
@@ -163,8 +166,9 @@ def gen_stream(r, backend, ndocs=None, tail_blocks=None):
                 head = r.choice(['%YAML 1.1\n---\n', '%TAG !e! tag:example.com,2000:\n---\n'])
             else:
                 head = r.choice(['---\n', '---\n', '--- \n', '---   # doc\n'])
-        if body.startswith(('[', '"', "'", '|', '>')) and head.endswith('---\n') and r.random() < 0.3 and not body.startswith(('|', '>')):
-            head = head[:-1] + ' '
+        single_plain = body[:1].isalnum() and body.count('\n') == 1 and ': ' not in body and ' #' not in body
+        if (body.startswith(('[', '"', "'")) or single_plain) and head.endswith('---\n') and r.random() < 0.5:
+            head = head[:-1] + ' '        # the document starts on the '---' line itself
         ended = r.random() < 0.3
         text = head + body + ('...\n' if ended else '')
         parts.append({'kind': 'doc', 'text': text, 'ended': ended})
@@ -196,6 +200,8 @@ MALFORMED = {
     'constructor-unhashable-key': '---\n? [a]\n: b\n',
     'constructor-python-tag': '---\n- ok\n- !!python/object/apply:os.getcwd []\n',
     'constructor-bad-timestamp-tag': '---\n!!timestamp [not, a, scalar]\n',
+    'constructor-bad-binary': '---\n- ok\n- !!binary "abcde"\n- [after]\n',
+    'constructor-bad-binary-nested': '---\nk: {data: !!binary "not base64 \u00e9", more: [1]}\n',
     'constructor-nested-unknown-tag': '---\nouter: {a: [1, 2], b: {c: [3]}, d: !nosuch x}\nlater: [4]\n',
     'constructor-nested-in-sequence': '---\n- [1, [2, [3]]]\n- {k: {j: !nosuch y}}\n',
     # no '---': junk right after a document that a flow collection / quoted / block scalar has really terminated
@@ -218,6 +224,18 @@ def generate(seed, tier):
     blk = BLOCK[backend]
     if mode == 'bound':
         parts = gen_stream(rd, backend)
+        # a fifth of the bound runs go through a real file-like object (io.StringIO / io.BytesIO) instead of the
+        # simulated stream: code that treats genuine io objects specially (readline, readinto, peek) is only reachable there
+        case['via'] = 'io' if r.random() < 0.3 else 'sim'
+        if case['via'] == 'io' and r.random() < 0.6 and len(parts) >= 2:
+            # a document whose '---' line is itself longer than two refill blocks: whoever refills by physical
+            # lines (readline, iteration over the file) takes all of it before the previous document is delivered
+            tok = ''.join(rd.choice('abcdefghijklmnopqrstuvwxyz0123456789') for _ in range(rd.randint(int(2.2 * blk), 3 * blk)))
+            doc = {'kind': 'doc', 'text': '--- ' + rd.choice(['%s', '"%s"', "'%s'", '[%s]']) % tok + '\n', 'ended': False}
+            at = rd.randrange(1, len(parts))
+            while at < len(parts) and parts[at - 1]['kind'] == 'doc' and not parts[at - 1]['text'].endswith('\n'):
+                at += 1
+            parts.insert(at, doc)
     elif mode == 'order':
         parts = gen_stream(rd, backend, ndocs=r.choice([0, 1, 2, 3, 5]), tail_blocks=0)
         kinds = sorted(MALFORMED)
@@ -378,7 +396,14 @@ def execute(case):
             out['log'] = 'invalid-' + type(exc).__name__
             return out
         ends_u = [unit_offset(text, e, form) for e in ends]
-        stream = SimReader(data, case['sizes'], case['then'], log=log)
+        if case.get('via') == 'io':
+            import io
+            stream = io.StringIO(data) if isinstance(data, str) else io.BytesIO(data)
+            consumed = stream.tell
+            out['probes']['bound_runs_through_real_io_objects'] = 1
+        else:
+            stream = SimReader(data, case['sizes'], case['then'], log=log)
+            consumed = lambda: stream.pos
         k = 0
         worst = None
         try:
@@ -397,13 +422,14 @@ def execute(case):
                     if k >= len(ends_u):
                         out['violations'].append({'class': 'more-documents-than-reference', 'detail': {'k': k}})
                         break
-                    slack = stream.pos - ends_u[k]
-                    logparts.append([k, stream.pos, ends_u[k]])
+                    pos = consumed()
+                    slack = pos - ends_u[k]
+                    logparts.append([k, pos, ends_u[k]])
                     if worst is None or slack > worst:
                         worst = slack
                     if slack > 2 * blk:
                         out['violations'].append({'class': 'consumed-beyond-bound', 'detail': {
-                            'document': k, 'units_handed_out': stream.pos, 'end_of_document': ends_u[k], 'slack': slack,
+                            'document': k, 'units_handed_out': pos, 'end_of_document': ends_u[k], 'slack': slack, 'via': case.get('via', 'sim'),
                             'bound': 2 * blk, 'total_units': len(data)}})
                         break
                     k += 1
@@ -493,7 +519,15 @@ def execute(case):
                 fault = (ab['read'], lambda: OSError(5, 'simulated I/O error'))
             stream = SimReader(data, case['sizes'], case['then'], log=log, fault=fault)
             ref = weakref.ref(stream)
-            gen = getattr(yaml, api)(stream, Loader=L)
+            loaders = []
+
+            class Probe(L):
+                # the property speaks of the loader: watch the loader object itself, not only the stream it holds
+                def __init__(self, s):
+                    loaders.append(weakref.ref(self))
+                    super().__init__(s)
+            Probe.__name__ = L.__name__
+            gen = getattr(yaml, api)(stream, Loader=Probe)
             del stream
             n = 0
             err = None
@@ -521,7 +555,12 @@ def execute(case):
                     pass
             del gen
             alive = ref() is not None
-            logparts.append([n, err, alive])
+            loader_alive = any(w() is not None for w in loaders)
+            logparts.append([n, err, alive, loader_alive])
+            if loader_alive and not alive:
+                out['violations'].append({'class': 'loader-not-released-on-abandon', 'detail': {
+                    'how': ab['how'], 'items_consumed': n, 'loader': case['loader'], 'ended_with': err,
+                    'referrers': [type(x).__name__ for w in loaders if w() is not None for x in gc.get_referrers(w())][:6]}})
             out['faults']['abandon:' + ab['how']] = 1
             if err == 'OSError':
                 out['faults']['stream-exception-ends-iteration'] = 1
